@@ -173,8 +173,7 @@ def handle (j : Json) : Json :=
   let pre := (getArr j "pre").map parseType
   let fuel := pre.foldl (fun a p => max a (enoughFuel Δ p)) (enoughFuel Δ t)   -- `gen_finite`: never `nofuel` for a single call
   let (r, σ) := genAfter Δ o fuel pre t
-  let excl0 := (if heredAll quotedIn Δ t then ["HasQuoted"] else []) ++ (if heredAll dupIn Δ t then ["DupNames"] else []) ++
-    (if rootPtrBeforeB pre then ["RootPtrBefore"] else [])
+  let excl0 := (if heredAll quotedIn Δ t then ["HasQuoted"] else []) ++ (if heredAll dupIn Δ t then ["DupNames"] else [])
   let optBr := (if all then ["useAll"] else []) ++ (if o.throwCycle then ["opt.throw"] else []) ++ (if o.cust then ["opt.cust"] else []) ++
     (if o.exp then ["opt.export"] else []) ++ (if o.exp && o.expTop then ["opt.exportTop"] else []) ++
     (if o.exp && o.expGenerics then ["opt.exportGenerics"] else []) ++ (if o.tng.isSome then ["opt.typeNames"] else []) ++
